@@ -19,7 +19,7 @@ def main():
     t = tier()
     chk = root_check('C03', ['C03/zz_verif_c03.go'])
     P = MOD + '.'
-    chk.load([P + n for n in ('VerifC03Forge', 'VerifC03Unknown', 'VerifC03Honest', 'VerifC03StateUnchanged', 'VerifC03Witness')])
+    chk.load([P + n for n in ('VerifC03Forge', 'VerifC03Unknown', 'VerifC03Honest', 'VerifC03Replay', 'VerifC03StateUnchanged', 'VerifC03Witness')])
     cfg = {'timeout_ms': 60000, 'unwind': 12}
     jobs = []
     for et in EVENT_TYPES:
@@ -28,6 +28,8 @@ def main():
     jobs.append(Job(P + 'VerifC03Unknown', (), cfg=cfg))
     for k in (0, 1, 2):
         jobs.append(Job(P + 'VerifC03Honest', (k,), cfg=cfg))
+    for k in (0, 1, 2):
+        jobs.append(Job(P + 'VerifC03Replay', (k,), cfg=cfg))
     jobs.append(Job(P + 'VerifC03StateUnchanged', (1,), cfg=cfg))
     jobs.append(Job(P + 'VerifC03StateUnchanged', (3,), cfg=cfg))
     jobs.append(Job(P + 'VerifC03Witness', (), witness=True, cfg=cfg))
